@@ -98,6 +98,16 @@ fn run_msg(c: &MsgCase) -> Outcome {
     if cs.op == "READ" && produced > 0 {
         ranges.push((16, produced));
     }
+    {
+        // directory entries handed over before the filesystem failed stay behind the error reply
+        let dr = fs.dir_returns.lock().unwrap();
+        if dr.contains(&crate::mockfs::DIR_FAILED) {
+            let n: i64 = dr.iter().filter(|x| **x > 0).sum();
+            if n > 0 {
+                ranges.push((16, n as usize));
+            }
+        }
+    }
     let mut exp = BTreeSet::new();
     for (s, n) in &ranges {
         for p in env.pages_of_wrange(*s, *n) {
